@@ -223,7 +223,7 @@ func probe(f []string) string {
 					r = "timeout"
 				}
 				if r != "returned" {
-					out = r
+					return r // one root that panics or does not return decides the op
 				}
 			}
 		}
@@ -253,10 +253,22 @@ func classify(oracle string, ops, res []string) string {
 	if len(f) >= 5 && f[1] == "probe" && f[2] == "resolve" && fw.Unhx(f[3]) == "npm" && res[0] == "timeout" {
 		text := fw.Unhx(f[4])
 		if strings.Contains(text, "KnownAs") {
-			return "F-C04-npm-alias-cycle"
+			return "F-C04-npm-hang-alias"
 		}
-		if strings.Contains(text, "DerivedFrom") || strings.Contains(text, ">") {
-			return "F-C04-npm-bundle-cycle"
+		// a plain conflict cycle needs a package with two versions (two version lines, i.e.
+		// lines indented by exactly one tab, under one package line)
+		n := 0
+		for _, line := range strings.Split(text, "\n") {
+			switch {
+			case strings.HasPrefix(line, "\t\t"):
+			case strings.HasPrefix(line, "\t"):
+				n++
+				if n >= 2 {
+					return "F-C04-npm-hang-conflict"
+				}
+			default:
+				n = 0
+			}
 		}
 	}
 	return ""
